@@ -1,47 +1,64 @@
 (* song.rs: Track, Flags, Song - the interpreter state of the modelled fragment.
    Initial values are those of Track::new / Song::new / Flags::new. Event lists are kept in push order. *)
 From Sakura.Model Require Import Base Event.
+From Sakura.Model Require Reserve.   (* onres, cc_res: the reservation records of model/Reserve.v, used qualified *)
 From Sakura.Gen Require Import Consts.
+
+(* the reservation state of a track (song.rs Track: v_on_time .. cc_on_note_wave, the four random widths) *)
+Record rsv := mkRsv {
+  rv_v_on_time_start : Z; rv_v_on_time : option (list Z);
+  rv_v : Reserve.onres; rv_q : Reserve.onres; rv_t : Reserve.onres; rv_o : Reserve.onres; rv_l : Reserve.onres;
+  rv_freq : Z;                                                  (* cc_on_time_freq *)
+  rv_cc_on_note : list Reserve.cc_res; rv_cc_on_note_wave : list Reserve.cc_res;
+  rv_v_rand : Z; rv_q_rand : Z; rv_t_rand : Z; rv_o_rand : Z
+}.
+Definition rsv_new : rsv :=
+  mkRsv (-1) None Reserve.onres_new Reserve.onres_new Reserve.onres_new Reserve.onres_new Reserve.onres_new 4 [] [] 0 0 0 0.
 
 Record track := mkTrack {
   tr_timepos : Z; tr_channel : Z; tr_length : Z; tr_octave : Z; tr_velocity : Z; tr_qlen : Z; tr_timing : Z;
   tr_track_key : Z;
   tr_tie_mode : Z; tr_tie_value : Z; tr_bend_range : Z;
-  tr_events : list event; tr_tie_notes : list event
+  tr_events : list event; tr_tie_notes : list event;
+  tr_rsv : rsv
 }.
 
 Definition track_new (timebase channel : Z) : track :=
   let ch := if channel <? 0 then 0 else if channel >? 15 then 15 else channel in
-  mkTrack 0 ch timebase 5 100 90 0 0 0 0 (-1) [] [].
+  mkTrack 0 ch timebase 5 100 90 0 0 0 0 (-1) [] [] rsv_new.
 
 Definition tr_set_timepos (t : track) (v : Z) : track :=
   mkTrack v (tr_channel t) (tr_length t) (tr_octave t) (tr_velocity t) (tr_qlen t) (tr_timing t) (tr_track_key t)
-          (tr_tie_mode t) (tr_tie_value t) (tr_bend_range t) (tr_events t) (tr_tie_notes t).
+          (tr_tie_mode t) (tr_tie_value t) (tr_bend_range t) (tr_events t) (tr_tie_notes t) (tr_rsv t).
 Definition tr_set_channel (t : track) (v : Z) : track :=
   mkTrack (tr_timepos t) v (tr_length t) (tr_octave t) (tr_velocity t) (tr_qlen t) (tr_timing t) (tr_track_key t)
-          (tr_tie_mode t) (tr_tie_value t) (tr_bend_range t) (tr_events t) (tr_tie_notes t).
+          (tr_tie_mode t) (tr_tie_value t) (tr_bend_range t) (tr_events t) (tr_tie_notes t) (tr_rsv t).
 Definition tr_set_length (t : track) (v : Z) : track :=
   mkTrack (tr_timepos t) (tr_channel t) v (tr_octave t) (tr_velocity t) (tr_qlen t) (tr_timing t) (tr_track_key t)
-          (tr_tie_mode t) (tr_tie_value t) (tr_bend_range t) (tr_events t) (tr_tie_notes t).
+          (tr_tie_mode t) (tr_tie_value t) (tr_bend_range t) (tr_events t) (tr_tie_notes t) (tr_rsv t).
 Definition tr_set_octave (t : track) (v : Z) : track :=
   mkTrack (tr_timepos t) (tr_channel t) (tr_length t) v (tr_velocity t) (tr_qlen t) (tr_timing t) (tr_track_key t)
-          (tr_tie_mode t) (tr_tie_value t) (tr_bend_range t) (tr_events t) (tr_tie_notes t).
+          (tr_tie_mode t) (tr_tie_value t) (tr_bend_range t) (tr_events t) (tr_tie_notes t) (tr_rsv t).
 Definition tr_set_velocity (t : track) (v : Z) : track :=
   mkTrack (tr_timepos t) (tr_channel t) (tr_length t) (tr_octave t) v (tr_qlen t) (tr_timing t) (tr_track_key t)
-          (tr_tie_mode t) (tr_tie_value t) (tr_bend_range t) (tr_events t) (tr_tie_notes t).
+          (tr_tie_mode t) (tr_tie_value t) (tr_bend_range t) (tr_events t) (tr_tie_notes t) (tr_rsv t).
 Definition tr_set_qlen (t : track) (v : Z) : track :=
   mkTrack (tr_timepos t) (tr_channel t) (tr_length t) (tr_octave t) (tr_velocity t) v (tr_timing t) (tr_track_key t)
-          (tr_tie_mode t) (tr_tie_value t) (tr_bend_range t) (tr_events t) (tr_tie_notes t).
+          (tr_tie_mode t) (tr_tie_value t) (tr_bend_range t) (tr_events t) (tr_tie_notes t) (tr_rsv t).
 Definition tr_set_timing (t : track) (v : Z) : track :=
   mkTrack (tr_timepos t) (tr_channel t) (tr_length t) (tr_octave t) (tr_velocity t) (tr_qlen t) v (tr_track_key t)
-          (tr_tie_mode t) (tr_tie_value t) (tr_bend_range t) (tr_events t) (tr_tie_notes t).
+          (tr_tie_mode t) (tr_tie_value t) (tr_bend_range t) (tr_events t) (tr_tie_notes t) (tr_rsv t).
 Definition tr_set_track_key (t : track) (v : Z) : track :=
   mkTrack (tr_timepos t) (tr_channel t) (tr_length t) (tr_octave t) (tr_velocity t) (tr_qlen t) (tr_timing t) v
-          (tr_tie_mode t) (tr_tie_value t) (tr_bend_range t) (tr_events t) (tr_tie_notes t).
+          (tr_tie_mode t) (tr_tie_value t) (tr_bend_range t) (tr_events t) (tr_tie_notes t) (tr_rsv t).
 Definition tr_set_events (t : track) (v : list event) : track :=
   mkTrack (tr_timepos t) (tr_channel t) (tr_length t) (tr_octave t) (tr_velocity t) (tr_qlen t) (tr_timing t) (tr_track_key t)
-          (tr_tie_mode t) (tr_tie_value t) (tr_bend_range t) v (tr_tie_notes t).
+          (tr_tie_mode t) (tr_tie_value t) (tr_bend_range t) v (tr_tie_notes t) (tr_rsv t).
+Definition tr_set_rsv (t : track) (v : rsv) : track :=
+  mkTrack (tr_timepos t) (tr_channel t) (tr_length t) (tr_octave t) (tr_velocity t) (tr_qlen t) (tr_timing t) (tr_track_key t)
+          (tr_tie_mode t) (tr_tie_value t) (tr_bend_range t) (tr_events t) (tr_tie_notes t) v.
 Definition tr_push_event (t : track) (e : event) : track := tr_set_events t (tr_events t ++ [e]).
+Definition tr_push_events (t : track) (evs : list event) : track := tr_set_events t (tr_events t ++ evs).
 
 (* variables_stack (global scope): name -> value; only what the fragment needs is distinguished *)
 Inductive vval := VStr (body : list ch) (line : Z) | VInt (v : Z) | VOther.
@@ -68,53 +85,57 @@ Record song := mkSong {
   s_lineno : Z;
   s_logs : list (list ch);
   s_vars : list (list ch * vval);
-  s_rhythm : list (Z * list ch)
+  s_rhythm : list (Z * list ch);
+  s_rand_seed : Z                 (* rand_seed (u32) *)
 }.
 
 Definition s_set_tracks (s : song) (v : list track) : song :=
-  mkSong v (s_cur s) (s_timebase s) (s_key_flag s) (s_key_shift s) (s_use_key_shift s) (s_v_add s) (s_q_add s) (s_harmony_flag s) (s_harmony_time s) (s_harmony_events s) (s_octave_once s) (s_break_flag s) (s_tempo s) (s_timesig_frac s) (s_timesig_deno s) (s_measure_shift s) (s_play_from s) (s_lineno s) (s_logs s) (s_vars s) (s_rhythm s).
+  mkSong v (s_cur s) (s_timebase s) (s_key_flag s) (s_key_shift s) (s_use_key_shift s) (s_v_add s) (s_q_add s) (s_harmony_flag s) (s_harmony_time s) (s_harmony_events s) (s_octave_once s) (s_break_flag s) (s_tempo s) (s_timesig_frac s) (s_timesig_deno s) (s_measure_shift s) (s_play_from s) (s_lineno s) (s_logs s) (s_vars s) (s_rhythm s) (s_rand_seed s).
 Definition s_set_cur (s : song) (v : nat) : song :=
-  mkSong (s_tracks s) v (s_timebase s) (s_key_flag s) (s_key_shift s) (s_use_key_shift s) (s_v_add s) (s_q_add s) (s_harmony_flag s) (s_harmony_time s) (s_harmony_events s) (s_octave_once s) (s_break_flag s) (s_tempo s) (s_timesig_frac s) (s_timesig_deno s) (s_measure_shift s) (s_play_from s) (s_lineno s) (s_logs s) (s_vars s) (s_rhythm s).
+  mkSong (s_tracks s) v (s_timebase s) (s_key_flag s) (s_key_shift s) (s_use_key_shift s) (s_v_add s) (s_q_add s) (s_harmony_flag s) (s_harmony_time s) (s_harmony_events s) (s_octave_once s) (s_break_flag s) (s_tempo s) (s_timesig_frac s) (s_timesig_deno s) (s_measure_shift s) (s_play_from s) (s_lineno s) (s_logs s) (s_vars s) (s_rhythm s) (s_rand_seed s).
 Definition s_set_timebase (s : song) (v : Z) : song :=
-  mkSong (s_tracks s) (s_cur s) v (s_key_flag s) (s_key_shift s) (s_use_key_shift s) (s_v_add s) (s_q_add s) (s_harmony_flag s) (s_harmony_time s) (s_harmony_events s) (s_octave_once s) (s_break_flag s) (s_tempo s) (s_timesig_frac s) (s_timesig_deno s) (s_measure_shift s) (s_play_from s) (s_lineno s) (s_logs s) (s_vars s) (s_rhythm s).
+  mkSong (s_tracks s) (s_cur s) v (s_key_flag s) (s_key_shift s) (s_use_key_shift s) (s_v_add s) (s_q_add s) (s_harmony_flag s) (s_harmony_time s) (s_harmony_events s) (s_octave_once s) (s_break_flag s) (s_tempo s) (s_timesig_frac s) (s_timesig_deno s) (s_measure_shift s) (s_play_from s) (s_lineno s) (s_logs s) (s_vars s) (s_rhythm s) (s_rand_seed s).
 Definition s_set_key_flag (s : song) (v : list Z) : song :=
-  mkSong (s_tracks s) (s_cur s) (s_timebase s) v (s_key_shift s) (s_use_key_shift s) (s_v_add s) (s_q_add s) (s_harmony_flag s) (s_harmony_time s) (s_harmony_events s) (s_octave_once s) (s_break_flag s) (s_tempo s) (s_timesig_frac s) (s_timesig_deno s) (s_measure_shift s) (s_play_from s) (s_lineno s) (s_logs s) (s_vars s) (s_rhythm s).
+  mkSong (s_tracks s) (s_cur s) (s_timebase s) v (s_key_shift s) (s_use_key_shift s) (s_v_add s) (s_q_add s) (s_harmony_flag s) (s_harmony_time s) (s_harmony_events s) (s_octave_once s) (s_break_flag s) (s_tempo s) (s_timesig_frac s) (s_timesig_deno s) (s_measure_shift s) (s_play_from s) (s_lineno s) (s_logs s) (s_vars s) (s_rhythm s) (s_rand_seed s).
 Definition s_set_key_shift (s : song) (v : Z) : song :=
-  mkSong (s_tracks s) (s_cur s) (s_timebase s) (s_key_flag s) v (s_use_key_shift s) (s_v_add s) (s_q_add s) (s_harmony_flag s) (s_harmony_time s) (s_harmony_events s) (s_octave_once s) (s_break_flag s) (s_tempo s) (s_timesig_frac s) (s_timesig_deno s) (s_measure_shift s) (s_play_from s) (s_lineno s) (s_logs s) (s_vars s) (s_rhythm s).
+  mkSong (s_tracks s) (s_cur s) (s_timebase s) (s_key_flag s) v (s_use_key_shift s) (s_v_add s) (s_q_add s) (s_harmony_flag s) (s_harmony_time s) (s_harmony_events s) (s_octave_once s) (s_break_flag s) (s_tempo s) (s_timesig_frac s) (s_timesig_deno s) (s_measure_shift s) (s_play_from s) (s_lineno s) (s_logs s) (s_vars s) (s_rhythm s) (s_rand_seed s).
 Definition s_set_use_key_shift (s : song) (v : bool) : song :=
-  mkSong (s_tracks s) (s_cur s) (s_timebase s) (s_key_flag s) (s_key_shift s) v (s_v_add s) (s_q_add s) (s_harmony_flag s) (s_harmony_time s) (s_harmony_events s) (s_octave_once s) (s_break_flag s) (s_tempo s) (s_timesig_frac s) (s_timesig_deno s) (s_measure_shift s) (s_play_from s) (s_lineno s) (s_logs s) (s_vars s) (s_rhythm s).
+  mkSong (s_tracks s) (s_cur s) (s_timebase s) (s_key_flag s) (s_key_shift s) v (s_v_add s) (s_q_add s) (s_harmony_flag s) (s_harmony_time s) (s_harmony_events s) (s_octave_once s) (s_break_flag s) (s_tempo s) (s_timesig_frac s) (s_timesig_deno s) (s_measure_shift s) (s_play_from s) (s_lineno s) (s_logs s) (s_vars s) (s_rhythm s) (s_rand_seed s).
 Definition s_set_v_add (s : song) (v : Z) : song :=
-  mkSong (s_tracks s) (s_cur s) (s_timebase s) (s_key_flag s) (s_key_shift s) (s_use_key_shift s) v (s_q_add s) (s_harmony_flag s) (s_harmony_time s) (s_harmony_events s) (s_octave_once s) (s_break_flag s) (s_tempo s) (s_timesig_frac s) (s_timesig_deno s) (s_measure_shift s) (s_play_from s) (s_lineno s) (s_logs s) (s_vars s) (s_rhythm s).
+  mkSong (s_tracks s) (s_cur s) (s_timebase s) (s_key_flag s) (s_key_shift s) (s_use_key_shift s) v (s_q_add s) (s_harmony_flag s) (s_harmony_time s) (s_harmony_events s) (s_octave_once s) (s_break_flag s) (s_tempo s) (s_timesig_frac s) (s_timesig_deno s) (s_measure_shift s) (s_play_from s) (s_lineno s) (s_logs s) (s_vars s) (s_rhythm s) (s_rand_seed s).
 Definition s_set_q_add (s : song) (v : Z) : song :=
-  mkSong (s_tracks s) (s_cur s) (s_timebase s) (s_key_flag s) (s_key_shift s) (s_use_key_shift s) (s_v_add s) v (s_harmony_flag s) (s_harmony_time s) (s_harmony_events s) (s_octave_once s) (s_break_flag s) (s_tempo s) (s_timesig_frac s) (s_timesig_deno s) (s_measure_shift s) (s_play_from s) (s_lineno s) (s_logs s) (s_vars s) (s_rhythm s).
+  mkSong (s_tracks s) (s_cur s) (s_timebase s) (s_key_flag s) (s_key_shift s) (s_use_key_shift s) (s_v_add s) v (s_harmony_flag s) (s_harmony_time s) (s_harmony_events s) (s_octave_once s) (s_break_flag s) (s_tempo s) (s_timesig_frac s) (s_timesig_deno s) (s_measure_shift s) (s_play_from s) (s_lineno s) (s_logs s) (s_vars s) (s_rhythm s) (s_rand_seed s).
 Definition s_set_harmony_flag (s : song) (v : bool) : song :=
-  mkSong (s_tracks s) (s_cur s) (s_timebase s) (s_key_flag s) (s_key_shift s) (s_use_key_shift s) (s_v_add s) (s_q_add s) v (s_harmony_time s) (s_harmony_events s) (s_octave_once s) (s_break_flag s) (s_tempo s) (s_timesig_frac s) (s_timesig_deno s) (s_measure_shift s) (s_play_from s) (s_lineno s) (s_logs s) (s_vars s) (s_rhythm s).
+  mkSong (s_tracks s) (s_cur s) (s_timebase s) (s_key_flag s) (s_key_shift s) (s_use_key_shift s) (s_v_add s) (s_q_add s) v (s_harmony_time s) (s_harmony_events s) (s_octave_once s) (s_break_flag s) (s_tempo s) (s_timesig_frac s) (s_timesig_deno s) (s_measure_shift s) (s_play_from s) (s_lineno s) (s_logs s) (s_vars s) (s_rhythm s) (s_rand_seed s).
 Definition s_set_harmony_time (s : song) (v : Z) : song :=
-  mkSong (s_tracks s) (s_cur s) (s_timebase s) (s_key_flag s) (s_key_shift s) (s_use_key_shift s) (s_v_add s) (s_q_add s) (s_harmony_flag s) v (s_harmony_events s) (s_octave_once s) (s_break_flag s) (s_tempo s) (s_timesig_frac s) (s_timesig_deno s) (s_measure_shift s) (s_play_from s) (s_lineno s) (s_logs s) (s_vars s) (s_rhythm s).
+  mkSong (s_tracks s) (s_cur s) (s_timebase s) (s_key_flag s) (s_key_shift s) (s_use_key_shift s) (s_v_add s) (s_q_add s) (s_harmony_flag s) v (s_harmony_events s) (s_octave_once s) (s_break_flag s) (s_tempo s) (s_timesig_frac s) (s_timesig_deno s) (s_measure_shift s) (s_play_from s) (s_lineno s) (s_logs s) (s_vars s) (s_rhythm s) (s_rand_seed s).
 Definition s_set_harmony_events (s : song) (v : list event) : song :=
-  mkSong (s_tracks s) (s_cur s) (s_timebase s) (s_key_flag s) (s_key_shift s) (s_use_key_shift s) (s_v_add s) (s_q_add s) (s_harmony_flag s) (s_harmony_time s) v (s_octave_once s) (s_break_flag s) (s_tempo s) (s_timesig_frac s) (s_timesig_deno s) (s_measure_shift s) (s_play_from s) (s_lineno s) (s_logs s) (s_vars s) (s_rhythm s).
+  mkSong (s_tracks s) (s_cur s) (s_timebase s) (s_key_flag s) (s_key_shift s) (s_use_key_shift s) (s_v_add s) (s_q_add s) (s_harmony_flag s) (s_harmony_time s) v (s_octave_once s) (s_break_flag s) (s_tempo s) (s_timesig_frac s) (s_timesig_deno s) (s_measure_shift s) (s_play_from s) (s_lineno s) (s_logs s) (s_vars s) (s_rhythm s) (s_rand_seed s).
 Definition s_set_octave_once (s : song) (v : Z) : song :=
-  mkSong (s_tracks s) (s_cur s) (s_timebase s) (s_key_flag s) (s_key_shift s) (s_use_key_shift s) (s_v_add s) (s_q_add s) (s_harmony_flag s) (s_harmony_time s) (s_harmony_events s) v (s_break_flag s) (s_tempo s) (s_timesig_frac s) (s_timesig_deno s) (s_measure_shift s) (s_play_from s) (s_lineno s) (s_logs s) (s_vars s) (s_rhythm s).
+  mkSong (s_tracks s) (s_cur s) (s_timebase s) (s_key_flag s) (s_key_shift s) (s_use_key_shift s) (s_v_add s) (s_q_add s) (s_harmony_flag s) (s_harmony_time s) (s_harmony_events s) v (s_break_flag s) (s_tempo s) (s_timesig_frac s) (s_timesig_deno s) (s_measure_shift s) (s_play_from s) (s_lineno s) (s_logs s) (s_vars s) (s_rhythm s) (s_rand_seed s).
 Definition s_set_break_flag (s : song) (v : Z) : song :=
-  mkSong (s_tracks s) (s_cur s) (s_timebase s) (s_key_flag s) (s_key_shift s) (s_use_key_shift s) (s_v_add s) (s_q_add s) (s_harmony_flag s) (s_harmony_time s) (s_harmony_events s) (s_octave_once s) v (s_tempo s) (s_timesig_frac s) (s_timesig_deno s) (s_measure_shift s) (s_play_from s) (s_lineno s) (s_logs s) (s_vars s) (s_rhythm s).
+  mkSong (s_tracks s) (s_cur s) (s_timebase s) (s_key_flag s) (s_key_shift s) (s_use_key_shift s) (s_v_add s) (s_q_add s) (s_harmony_flag s) (s_harmony_time s) (s_harmony_events s) (s_octave_once s) v (s_tempo s) (s_timesig_frac s) (s_timesig_deno s) (s_measure_shift s) (s_play_from s) (s_lineno s) (s_logs s) (s_vars s) (s_rhythm s) (s_rand_seed s).
 Definition s_set_tempo (s : song) (v : Z) : song :=
-  mkSong (s_tracks s) (s_cur s) (s_timebase s) (s_key_flag s) (s_key_shift s) (s_use_key_shift s) (s_v_add s) (s_q_add s) (s_harmony_flag s) (s_harmony_time s) (s_harmony_events s) (s_octave_once s) (s_break_flag s) v (s_timesig_frac s) (s_timesig_deno s) (s_measure_shift s) (s_play_from s) (s_lineno s) (s_logs s) (s_vars s) (s_rhythm s).
+  mkSong (s_tracks s) (s_cur s) (s_timebase s) (s_key_flag s) (s_key_shift s) (s_use_key_shift s) (s_v_add s) (s_q_add s) (s_harmony_flag s) (s_harmony_time s) (s_harmony_events s) (s_octave_once s) (s_break_flag s) v (s_timesig_frac s) (s_timesig_deno s) (s_measure_shift s) (s_play_from s) (s_lineno s) (s_logs s) (s_vars s) (s_rhythm s) (s_rand_seed s).
 Definition s_set_timesig_frac (s : song) (v : Z) : song :=
-  mkSong (s_tracks s) (s_cur s) (s_timebase s) (s_key_flag s) (s_key_shift s) (s_use_key_shift s) (s_v_add s) (s_q_add s) (s_harmony_flag s) (s_harmony_time s) (s_harmony_events s) (s_octave_once s) (s_break_flag s) (s_tempo s) v (s_timesig_deno s) (s_measure_shift s) (s_play_from s) (s_lineno s) (s_logs s) (s_vars s) (s_rhythm s).
+  mkSong (s_tracks s) (s_cur s) (s_timebase s) (s_key_flag s) (s_key_shift s) (s_use_key_shift s) (s_v_add s) (s_q_add s) (s_harmony_flag s) (s_harmony_time s) (s_harmony_events s) (s_octave_once s) (s_break_flag s) (s_tempo s) v (s_timesig_deno s) (s_measure_shift s) (s_play_from s) (s_lineno s) (s_logs s) (s_vars s) (s_rhythm s) (s_rand_seed s).
 Definition s_set_timesig_deno (s : song) (v : Z) : song :=
-  mkSong (s_tracks s) (s_cur s) (s_timebase s) (s_key_flag s) (s_key_shift s) (s_use_key_shift s) (s_v_add s) (s_q_add s) (s_harmony_flag s) (s_harmony_time s) (s_harmony_events s) (s_octave_once s) (s_break_flag s) (s_tempo s) (s_timesig_frac s) v (s_measure_shift s) (s_play_from s) (s_lineno s) (s_logs s) (s_vars s) (s_rhythm s).
+  mkSong (s_tracks s) (s_cur s) (s_timebase s) (s_key_flag s) (s_key_shift s) (s_use_key_shift s) (s_v_add s) (s_q_add s) (s_harmony_flag s) (s_harmony_time s) (s_harmony_events s) (s_octave_once s) (s_break_flag s) (s_tempo s) (s_timesig_frac s) v (s_measure_shift s) (s_play_from s) (s_lineno s) (s_logs s) (s_vars s) (s_rhythm s) (s_rand_seed s).
 Definition s_set_measure_shift (s : song) (v : Z) : song :=
-  mkSong (s_tracks s) (s_cur s) (s_timebase s) (s_key_flag s) (s_key_shift s) (s_use_key_shift s) (s_v_add s) (s_q_add s) (s_harmony_flag s) (s_harmony_time s) (s_harmony_events s) (s_octave_once s) (s_break_flag s) (s_tempo s) (s_timesig_frac s) (s_timesig_deno s) v (s_play_from s) (s_lineno s) (s_logs s) (s_vars s) (s_rhythm s).
+  mkSong (s_tracks s) (s_cur s) (s_timebase s) (s_key_flag s) (s_key_shift s) (s_use_key_shift s) (s_v_add s) (s_q_add s) (s_harmony_flag s) (s_harmony_time s) (s_harmony_events s) (s_octave_once s) (s_break_flag s) (s_tempo s) (s_timesig_frac s) (s_timesig_deno s) v (s_play_from s) (s_lineno s) (s_logs s) (s_vars s) (s_rhythm s) (s_rand_seed s).
 Definition s_set_play_from (s : song) (v : Z) : song :=
-  mkSong (s_tracks s) (s_cur s) (s_timebase s) (s_key_flag s) (s_key_shift s) (s_use_key_shift s) (s_v_add s) (s_q_add s) (s_harmony_flag s) (s_harmony_time s) (s_harmony_events s) (s_octave_once s) (s_break_flag s) (s_tempo s) (s_timesig_frac s) (s_timesig_deno s) (s_measure_shift s) v (s_lineno s) (s_logs s) (s_vars s) (s_rhythm s).
+  mkSong (s_tracks s) (s_cur s) (s_timebase s) (s_key_flag s) (s_key_shift s) (s_use_key_shift s) (s_v_add s) (s_q_add s) (s_harmony_flag s) (s_harmony_time s) (s_harmony_events s) (s_octave_once s) (s_break_flag s) (s_tempo s) (s_timesig_frac s) (s_timesig_deno s) (s_measure_shift s) v (s_lineno s) (s_logs s) (s_vars s) (s_rhythm s) (s_rand_seed s).
 Definition s_set_lineno (s : song) (v : Z) : song :=
-  mkSong (s_tracks s) (s_cur s) (s_timebase s) (s_key_flag s) (s_key_shift s) (s_use_key_shift s) (s_v_add s) (s_q_add s) (s_harmony_flag s) (s_harmony_time s) (s_harmony_events s) (s_octave_once s) (s_break_flag s) (s_tempo s) (s_timesig_frac s) (s_timesig_deno s) (s_measure_shift s) (s_play_from s) v (s_logs s) (s_vars s) (s_rhythm s).
+  mkSong (s_tracks s) (s_cur s) (s_timebase s) (s_key_flag s) (s_key_shift s) (s_use_key_shift s) (s_v_add s) (s_q_add s) (s_harmony_flag s) (s_harmony_time s) (s_harmony_events s) (s_octave_once s) (s_break_flag s) (s_tempo s) (s_timesig_frac s) (s_timesig_deno s) (s_measure_shift s) (s_play_from s) v (s_logs s) (s_vars s) (s_rhythm s) (s_rand_seed s).
 Definition s_set_logs (s : song) (v : list (list ch)) : song :=
-  mkSong (s_tracks s) (s_cur s) (s_timebase s) (s_key_flag s) (s_key_shift s) (s_use_key_shift s) (s_v_add s) (s_q_add s) (s_harmony_flag s) (s_harmony_time s) (s_harmony_events s) (s_octave_once s) (s_break_flag s) (s_tempo s) (s_timesig_frac s) (s_timesig_deno s) (s_measure_shift s) (s_play_from s) (s_lineno s) v (s_vars s) (s_rhythm s).
+  mkSong (s_tracks s) (s_cur s) (s_timebase s) (s_key_flag s) (s_key_shift s) (s_use_key_shift s) (s_v_add s) (s_q_add s) (s_harmony_flag s) (s_harmony_time s) (s_harmony_events s) (s_octave_once s) (s_break_flag s) (s_tempo s) (s_timesig_frac s) (s_timesig_deno s) (s_measure_shift s) (s_play_from s) (s_lineno s) v (s_vars s) (s_rhythm s) (s_rand_seed s).
 Definition s_set_vars (s : song) (v : list (list ch * vval)) : song :=
-  mkSong (s_tracks s) (s_cur s) (s_timebase s) (s_key_flag s) (s_key_shift s) (s_use_key_shift s) (s_v_add s) (s_q_add s) (s_harmony_flag s) (s_harmony_time s) (s_harmony_events s) (s_octave_once s) (s_break_flag s) (s_tempo s) (s_timesig_frac s) (s_timesig_deno s) (s_measure_shift s) (s_play_from s) (s_lineno s) (s_logs s) v (s_rhythm s).
+  mkSong (s_tracks s) (s_cur s) (s_timebase s) (s_key_flag s) (s_key_shift s) (s_use_key_shift s) (s_v_add s) (s_q_add s) (s_harmony_flag s) (s_harmony_time s) (s_harmony_events s) (s_octave_once s) (s_break_flag s) (s_tempo s) (s_timesig_frac s) (s_timesig_deno s) (s_measure_shift s) (s_play_from s) (s_lineno s) (s_logs s) v (s_rhythm s) (s_rand_seed s).
 Definition s_set_rhythm (s : song) (v : list (Z * list ch)) : song :=
-  mkSong (s_tracks s) (s_cur s) (s_timebase s) (s_key_flag s) (s_key_shift s) (s_use_key_shift s) (s_v_add s) (s_q_add s) (s_harmony_flag s) (s_harmony_time s) (s_harmony_events s) (s_octave_once s) (s_break_flag s) (s_tempo s) (s_timesig_frac s) (s_timesig_deno s) (s_measure_shift s) (s_play_from s) (s_lineno s) (s_logs s) (s_vars s) v.
+  mkSong (s_tracks s) (s_cur s) (s_timebase s) (s_key_flag s) (s_key_shift s) (s_use_key_shift s) (s_v_add s) (s_q_add s) (s_harmony_flag s) (s_harmony_time s) (s_harmony_events s) (s_octave_once s) (s_break_flag s) (s_tempo s) (s_timesig_frac s) (s_timesig_deno s) (s_measure_shift s) (s_play_from s) (s_lineno s) (s_logs s) (s_vars s) v (s_rand_seed s).
+
+Definition s_set_rand_seed (s : song) (v : Z) : song :=
+  mkSong (s_tracks s) (s_cur s) (s_timebase s) (s_key_flag s) (s_key_shift s) (s_use_key_shift s) (s_v_add s) (s_q_add s) (s_harmony_flag s) (s_harmony_time s) (s_harmony_events s) (s_octave_once s) (s_break_flag s) (s_tempo s) (s_timesig_frac s) (s_timesig_deno s) (s_measure_shift s) (s_play_from s) (s_lineno s) (s_logs s) (s_vars s) (s_rhythm s) v.
 
 Definition s_set_harmony (s : song) (f : bool) (t : Z) (evs : list event) : song :=
   s_set_harmony_events (s_set_harmony_time (s_set_harmony_flag s f) t) evs.
@@ -124,7 +145,7 @@ Definition s_set_adds (s : song) (vadd qadd : Z) : song := s_set_q_add (s_set_v_
 
 (* Song::new(); the variable table starts with init_variables() (regenerated: coq/gen/VarRows.v, see Compile.v) *)
 Definition song_new : song :=
-  mkSong [track_new 96 0] 0 96 [0;0;0;0;0;0;0;0;0;0;0;0] 0 true 8 1 false 0 [] 0 0 120 4 4 0 (-1) 0 [] [] [].
+  mkSong [track_new 96 0] 0 96 [0;0;0;0;0;0;0;0;0;0;0;0] 0 true 8 1 false 0 [] 0 0 120 4 4 0 (-1) 0 [] [] [] SAKURA_DEFAULT_RANDOM_SEED.
 
 (* add_log: bounded by SAKURA_MAX_LOGS *)
 Definition add_log (s : song) (msg : list ch) : song :=
